@@ -45,6 +45,11 @@ static void probe_prefix(int pre)
      * from transferring any object */
     if (pre == 0) cl_client_abort(PSRV);
     else {
+#if CO_SSDO_N > 1
+        /* pre == 2: the server has been switched off in RAM (its COB-ID written with bit 31 set, not saved); the reset loads the stored parameters, so the server
+         * is back on its stored identifiers afterwards - as on a node that starts from that NVM image */
+        if (pre == 2) (void)CODictWrLong(&Node.Dict, CO_DEV(0x1200 + PSRV, 1), S1Id[0] | 0x80000000u);
+#endif
         uint8_t d[2] = { 0x82, SDO_NODEID };
         w_rx(&Node, 0x000, 2, d);
         for (int s = 0; s < CO_SSDO_N; s++) { sdo_adopt(sdo_dirty_obj[s]); sdo_dirty_obj[s] = -1; sm_reset(&SM[s]); }
@@ -73,14 +78,14 @@ static void probe_state(void)
 {
     char why[300]; struct WObs keep = OBS;
     w_save(probe_snap);
-    for (PSRV = 0; PSRV < CO_SSDO_N; PSRV++) for (int pre = 0; pre < 2; pre++) for (int p = 0; p < NPROBE; p++) {
+    for (PSRV = 0; PSRV < CO_SSDO_N; PSRV++) for (int pre = 0; pre < (PSRV > 0 ? 3 : 2); pre++) for (int p = 0; p < NPROBE; p++) {
         w_restore(probe_snap); w_obs_clear();
         probe_prefix(pre);
         w_obs_clear();
         cl_trace = 0; cl_frames = 0; probe_runs++;
-        sdo_ctx = pre ? "[probe after NMT reset communication] " : "[probe after client abort] ";
+        sdo_ctx = pre == 2 ? "[probe after the server was switched off in RAM and NMT reset communication] " : pre ? "[probe after NMT reset communication] " : "[probe after client abort] ";
         if (probe_T(p, why, sizeof why))
-            mc_fail("c05-recovery-fails", "after %s, clean transfer #%d on server %d does not succeed: %s", pre ? "NMT reset communication" : "a client abort", p, PSRV, why);
+            mc_fail("c05-recovery-fails", "after %s, clean transfer #%d on server %d does not succeed: %s", pre == 2 ? "switching the server off in RAM and NMT reset communication" : pre ? "NMT reset communication" : "a client abort", p, PSRV, why);
         else if (cl_trace != probe_ref[PSRV][p] || cl_frames != probe_ref_frames[PSRV][p])
             mc_fail("c05-recovery-differs", "after %s, the frames of clean transfer #%d on server %d (%ld frames) differ from those of a freshly initialised node (%ld frames)",
                     pre ? "NMT reset communication" : "a client abort", p, PSRV, cl_frames, probe_ref_frames[PSRV][p]);
